@@ -211,6 +211,7 @@ theorem runCatch_keeps (c : Nat) (env : Env) (lang : Option Bytes) (b : Bytes) :
   apply Keeps.ite
   · apply Keeps.bind P (Keeps.of_sameCache (logMove_sameCache _ _)); intro _
     apply Keeps.bind P (applyTarget_keeps c _); intro _
+    apply Keeps.bind P (Keeps.of_sameCache vmReset_sameCache); intro _
     exact Keeps.of_sameCache (getCodeM_sameCache _ _ _)
   · exact Keeps.pure P _
 
